@@ -100,7 +100,7 @@ def check_C07(c):
             base.append(penman.format(penman.Tree(node, metadata=meta), indent=c.rng.choice([None, -1, 0, 2])))
         except Exception:
             pass
-    texts = list(base)
+    texts = list(base) + [c.rng.choice(gen.MULTIKEY_HEADERS) + s for s in base[:120]]
     for _ in range(_q(c, 2500, 60000)):
         s = c.rng.choice(base)
         for _ in range(c.rng.randint(1, 3)):
@@ -181,6 +181,10 @@ def check_C01(c):
     texts += list(gen.all_strings(alpha, _q(c, 3, 4)))
     for _ in range(_q(c, 1500, 30000)):
         texts.append(gen.mutate_text(c.rng, c.rng.choice(texts[:200])))
+    # comment lines carrying several keys (the usual AMR header style)
+    for s in list(texts[:150]):
+        if s.lstrip().startswith('('):
+            texts.append(c.rng.choice(gen.MULTIKEY_HEADERS) + s)
     for s in texts:
         ind, cp = c.rng.choice(INDENTS), c.rng.random() < 0.5
         jobs.append(('tr_fixpoint', dict(text=s, indent=ind, compact=cp)))
